@@ -152,6 +152,8 @@ def snapshot(root: Path):
     for p in sorted(root.rglob('*')):
         if p.is_file():
             out[str(p.relative_to(root))] = p.read_bytes().decode('utf-8', 'replace')
+        elif p.is_dir():
+            out[str(p.relative_to(root)) + '/'] = '<dir>'       # folders count as side effects too
     return out
 
 
@@ -292,6 +294,8 @@ def run_cli(case, root: Path):
                     cc.compile((work / inv['file']).resolve(), (work / inv.get('output', 'a.txt')).resolve(), **kw)
                 elif inv['cmd'] == 'new':
                     cn.new(inv['name'], (work / inv['path']) if inv.get('path') else None)
+                elif inv['cmd'] == 'write':      # the user edits a file between two invocations
+                    f = work / inv['path']; f.parent.mkdir(parents=True, exist_ok=True); f.write_text(inv['content'])
             except Timeout:
                 raise
             except BaseException as ex:
